@@ -1,6 +1,8 @@
 //! C09 — staleness. Timestamped balances (single + full account snapshots), public trades, L1 books
 //! and open-order reports delivered in arbitrary order through `EngineState::update_from_account` /
 //! `update_from_market`; observes every register after each delivery.
+//! Order reports include TERMINAL ones (`ordx`: cancelled / fully filled / expired / failed) and full
+//! account snapshots that carry balances and order reports together (`acct`).
 use barter::engine::state::trading::TradingState;
 use barter_data::{
     books::Level,
@@ -8,12 +10,13 @@ use barter_data::{
     subscription::{book::OrderBookL1, trade::PublicTrade},
 };
 use barter_execution::{
-    AccountEvent, AccountEventKind, AccountSnapshot,
+    AccountEvent, AccountEventKind, AccountSnapshot, InstrumentAccountSnapshot,
     balance::{AssetBalance, Balance},
+    error::{ApiError, OrderError},
     order::{
         Order, OrderKey, OrderKind, TimeInForce,
         id::{ClientOrderId, OrderId, StrategyId},
-        state::{Open, OrderState},
+        state::{Cancelled, InactiveOrderState, Open, OrderState},
     },
 };
 use barter_instrument::{
@@ -86,6 +89,48 @@ fn observe(engine: &TestEngine, maps: &Maps, lines: &mut Vec<String>) {
     }
 }
 
+/// an order report for `(instrument idx, client order id cid)`: quantity 10, price 100
+fn order_report(idx: InstrumentIndex, cid: &str, state: OrderState) -> Order {
+    Order {
+        key: OrderKey {
+            exchange: ExchangeIndex(0),
+            instrument: idx,
+            strategy: StrategyId::new("verif"),
+            cid: ClientOrderId::new(cid),
+        },
+        side: Side::Buy,
+        price: Decimal::from(100),
+        quantity: Decimal::from(10),
+        kind: OrderKind::Limit,
+        time_in_force: TimeInForce::GoodUntilCancelled { post_only: false },
+        state,
+    }
+}
+
+fn open_state(id: &str, t: &str, filled: &str) -> OrderState {
+    OrderState::active(Open {
+        id: OrderId::new(id),
+        time_exchange: time_ms(t.parse().unwrap()),
+        filled_quantity: parse_dec(filled),
+    })
+}
+
+/// terminal order states; `t` is the exchange time of a `Cancelled` report
+fn terminal_state(kind: &str, t: &str) -> OrderState {
+    match kind {
+        "Cancelled" => OrderState::inactive(Cancelled {
+            id: OrderId::new("x"),
+            time_exchange: time_ms(t.parse().unwrap()),
+        }),
+        "Filled" => OrderState::fully_filled(),
+        "Expired" => OrderState::expired(),
+        "Failed" => OrderState::inactive(InactiveOrderState::OpenFailed(OrderError::Rejected(
+            ApiError::OrderRejected("rejected".into()),
+        ))),
+        other => panic!("bad terminal kind {other}"),
+    }
+}
+
 fn run() {
     run_cases(|case, lines| {
         let mut built: Option<Built> = None;
@@ -155,7 +200,57 @@ fn run() {
                         }),
                     });
                 }
-                "trade" | "l1" | "l1e" | "ord" | "cancel" => {
+                "acct" => {
+                    // one full account snapshot: balances AND order reports (open / terminal), each
+                    // order in its own InstrumentAccountSnapshot, in the order given
+                    let mut balances = vec![];
+                    let mut instruments = vec![];
+                    let mut bad = false;
+                    let mut k = 1;
+                    while k < op.len() {
+                        match op[k].as_str() {
+                            "B" => {
+                                match bal_item(&op[k + 1..k + 5]) {
+                                    Some(b) => balances.push(b),
+                                    None => bad = true,
+                                }
+                                k += 5;
+                            }
+                            "O" | "X" => {
+                                let i: usize = op[k + 1].parse().unwrap();
+                                if i >= n {
+                                    bad = true;
+                                } else {
+                                    let idx = InstrumentIndex(maps.instruments[i]);
+                                    let state = if op[k] == "O" {
+                                        open_state(&op[k + 3], &op[k + 4], &op[k + 5])
+                                    } else {
+                                        terminal_state(&op[k + 3], &op[k + 4])
+                                    };
+                                    instruments.push(InstrumentAccountSnapshot {
+                                        instrument: idx,
+                                        orders: vec![order_report(idx, &op[k + 2], state)],
+                                    });
+                                }
+                                k += if op[k] == "O" { 6 } else { 5 };
+                            }
+                            other => panic!("bad acct item {other}"),
+                        }
+                    }
+                    if bad {
+                        lines.push("panic".into());
+                        continue;
+                    }
+                    engine.state.update_from_account(&AccountEvent {
+                        exchange: ExchangeIndex(0),
+                        kind: AccountEventKind::Snapshot(AccountSnapshot {
+                            exchange: ExchangeIndex(0),
+                            balances,
+                            instruments,
+                        }),
+                    });
+                }
+                "trade" | "l1" | "l1e" | "ord" | "cancel" | "ordx" => {
                     let i: usize = op[1].parse().unwrap();
                     if i >= n {
                         lines.push("panic".into());
@@ -174,6 +269,13 @@ fn run() {
                                     cid: ClientOrderId::new(op[2].as_str()),
                                 },
                                 state: RequestCancel { id: None },
+                            });
+                        }
+                        "ordx" => {
+                            let order = order_report(idx, &op[2], terminal_state(&op[3], &op[4]));
+                            engine.state.update_from_account(&AccountEvent {
+                                exchange: ExchangeIndex(0),
+                                kind: AccountEventKind::OrderSnapshot(Snapshot(order)),
                             });
                         }
                         "trade" => {
@@ -224,24 +326,7 @@ fn run() {
                             });
                         }
                         _ => {
-                            let order = Order {
-                                key: OrderKey {
-                                    exchange: ExchangeIndex(0),
-                                    instrument: idx,
-                                    strategy: StrategyId::new("verif"),
-                                    cid: ClientOrderId::new(op[2].as_str()),
-                                },
-                                side: Side::Buy,
-                                price: Decimal::from(100),
-                                quantity: Decimal::from(10),
-                                kind: OrderKind::Limit,
-                                time_in_force: TimeInForce::GoodUntilCancelled { post_only: false },
-                                state: OrderState::active(Open {
-                                    id: OrderId::new(op[3].as_str()),
-                                    time_exchange: time_ms(op[4].parse().unwrap()),
-                                    filled_quantity: parse_dec(&op[5]),
-                                }),
-                            };
+                            let order = order_report(idx, &op[2], open_state(&op[3], &op[4], &op[5]));
                             engine.state.update_from_account(&AccountEvent {
                                 exchange: ExchangeIndex(0),
                                 kind: AccountEventKind::OrderSnapshot(Snapshot(order)),
@@ -308,11 +393,50 @@ fn gen_case(rng: &mut Rng, out: &mut Out, tier: &str) {
                     pool.push(format!("l1 {i} {t} {tl} {} 1 {} 2", 100 + uid, 200 + uid));
                 }
             }
-            80..=94 => {
+            80..=89 => {
                 let i = rng.below(n as u64);
                 let c = rng.range(1, 2);
                 let filled = *rng.pick(&[0, 5]);
                 pool.push(format!("ord {i} {c} {uid} {t} {filled}"));
+            }
+            90..=92 => {
+                // a TERMINAL report for the order (delivered repeatedly / before / after its open
+                // reports like everything in the pool)
+                let i = rng.below(n as u64);
+                let c = rng.range(1, 2);
+                let kind = *rng.pick(&["Cancelled", "Filled", "Expired", "Failed"]);
+                pool.push(format!("ordx {i} {c} {kind} {t}"));
+            }
+            93..=95 => {
+                // a full account snapshot carrying balances and order reports (open and terminal)
+                let k = rng.range(1, 3);
+                let mut s = String::from("acct");
+                for _ in 0..k {
+                    uid += 1;
+                    if few_values {
+                        uid = 1 + rng.below(2) as i64;
+                    }
+                    let t = rng.range(1, tmax);
+                    match rng.below(3) {
+                        0 => {
+                            let a = rng.below(n as u64 + 1);
+                            s += &format!(" B {a} {t} {} {}", 100 + uid, 50 + uid);
+                        }
+                        1 => {
+                            let i = rng.below(n as u64);
+                            let c = rng.range(1, 2);
+                            let filled = *rng.pick(&[0, 5]);
+                            s += &format!(" O {i} {c} {uid} {t} {filled}");
+                        }
+                        _ => {
+                            let i = rng.below(n as u64);
+                            let c = rng.range(1, 2);
+                            let kind = *rng.pick(&["Cancelled", "Filled", "Expired", "Failed"]);
+                            s += &format!(" X {i} {c} {kind} {t}");
+                        }
+                    }
+                }
+                pool.push(s);
             }
             _ => {
                 // a cancel request for the order (delivered repeatedly like everything in the pool)
@@ -344,7 +468,11 @@ fn generate(seed: u64, n_cases: usize, tier: &str) {
                     2 => format!("l1 0 {t} {t} {} 1 {} 2", 100 + t * 2 + v, 200 + v),
                     _ => format!("ord 0 1 {} {t} {}", t * 2 + v, v * 5),
                 })
-                .chain(if kind == 3 { vec!["cancel 0 1".to_string()] } else { vec![] })
+                .chain(if kind == 3 {
+                    vec!["cancel 0 1".to_string(), "ordx 0 1 Cancelled 2".to_string()]
+                } else {
+                    vec![]
+                })
                 .chain(if kind == 2 { vec!["l1e 0 2 2".to_string()] } else { vec![] })
                 .collect();
             let a = msgs.len();
